@@ -54,6 +54,14 @@ func exprKey(v ssa.Value, depth int) string {
 	case *ssa.Extract:
 		return exprKey(x.Tuple, depth+1) + "#" + fmt.Sprint(x.Index)
 	case *ssa.Call:
+		if sc := x.Call.StaticCallee(); sc != nil && sc.Pkg != nil && sc.Pkg.Pkg.Path() == "strings" {
+			// pure function of its arguments
+			parts := []string{}
+			for _, a := range x.Call.Args {
+				parts = append(parts, exprKey(a, depth+1))
+			}
+			return "strings." + sc.Name() + "(" + strings.Join(parts, ",") + ")"
+		}
 		if sc := x.Call.StaticCallee(); sc != nil && sc.Signature.Recv() != nil && (isAccessor(sc.Object(), x.Call.Args[1:]) || (len(x.Call.Args) == 1 && isRepoFn(sc) && sc.Signature.Results().Len() == 1)) {
 			parts := []string{}
 			for _, a := range x.Call.Args {
